@@ -63,6 +63,47 @@ def run_rule(rep, fx, rid, cfg='default', floor=1):
                   'the Reader selection for a writer submessage with reader id UNKNOWN in %s is not `contains_writer(sender) || (SPDP writer && SPDP reader) || (stateless writer && '
                   'stateless reader)` (%s): matched readers are passed over (nothing RustDDS multicasts is delivered) or unrelated readers are fed' % (fn, '; '.join(bad[:3])), b.where())
     rep.floor(rid, n, floor, 'reader-selecting closures in MessageReceiver (%s features)' % cfg)
+    # the atom the selection rests on: Reader::contains_writer(e) = stateful AND some matched writer has entity id e
+    cw = fx.find('rtps::reader::Reader::contains_writer')
+    rep.analysed(cw)
+    ogc = Origins(cw, summaries=False)
+    Pc = Pos(cw)
+    bad = []
+    anys = [(bb, t) for bb, t in cw.calls() if callee_res(t).endswith('::any') and term_has(ogc.of_operand(t['args'][0], bb, 'term'), lambda x: x[0] == 'field' and x[1] == 'matched_writers')]
+    if len(anys) != 1:
+        bad.append('no any(..) over matched_writers')
+    else:
+        ab, at = anys[0]
+        cls = [c for c in fx.closures_of(cw) if c.key in str(ogc.of_operand(at['args'][1], ab, 'term'))]
+        from rdv.core import resolve_captures
+        okc = False
+        for c in cls:
+            oc = Origins(c, summaries=False)
+            r0 = resolve_captures(fx, c, oc.of_local(0, c.return_blocks()[0], 'term'), summaries=False)
+            okc = r0[0] == 'call' and r0[1].endswith('::eq') and any(term_has(a, lambda x: x[0] == 'field' and x[1] == 'entity_id') and term_has(a, lambda x: x[0] == 'param' and x[1] == 2) for a in r0[2]) and \
+                any(term_has(a, lambda x: x[0] == 'captured' and term_has(x, lambda y: y == ('param', 2))) or a == ('param', 2) for a in r0[2])
+        if not okc:
+            bad.append('the predicate of any(..) is not `writer guid.entity_id == the entity id asked for`')
+        # result: the any on the stateful path, false on the stateless one
+        for s_, t_, cond, lab in switch_edges(cw, fx, ogc):
+            stateless = (cond == ('field', 'like_stateless', ('param', 1)) and lab is True) or (cond[0] == 'un' and cond[1] == 'Not' and cond[2] == ('field', 'like_stateless', ('param', 1)) and lab is False)
+            stateful = (cond == ('field', 'like_stateless', ('param', 1)) and lab is False) or (cond[0] == 'un' and cond[1] == 'Not' and cond[2] == ('field', 'like_stateless', ('param', 1)) and lab is True)
+            if stateless and Pc.can_reach((t_, 0), (ab, 'term')):
+                bad.append('a stateless-like Reader consults its (empty) writer list')
+            if stateless:
+                consts = [st for bb in cw.live_blocks() if Pc.can_reach((t_, 0), (bb, 0)) or bb == t_ for st in cw.blocks[bb]['st']
+                          if st['s'] == 'assign' and st['lhs']['l'] == 0 and st['rv']['r'] == 'use' and st['rv']['x'].get('o') == 'const']
+                if any(str(st['rv']['x']['k'].get('v')) not in ('0', 'false', 'False') for st in consts):
+                    bad.append('a stateless-like Reader claims to contain the writer')
+            if stateful and not Pc.every_path_passes((t_, 0), (cw.return_blocks()[0], 'term'), via_pos=[(ab, 'term')]):
+                bad.append('a stateful Reader can answer without looking at its writers')
+        r0 = ogc.of_local(0, cw.return_blocks()[0], 'term')
+        if not term_has(r0, lambda x: x[0] == 'call' and x[1].endswith('::any')):
+            bad.append('the answer is not the any(..)')
+        if term_has(r0, lambda x: x[0] == 'un' and x[1] == 'Not'):
+            bad.append('the answer is negated')
+    rep.check(not bad, rid, '%scontains_writer' % pre, 'stateful AND any(matched_writers, guid.entity_id == e)',
+              'Reader::contains_writer is not "some matched writer has this entity id" (%s): the selection of Readers for a submessage with reader id UNKNOWN rests on it' % '; '.join(bad[:2]), cw.where())
     # the dispatch around it (no security plugins: the only arm the default build has)
     h = fx.find(MR + 'handle_submessage')
     rep.analysed(h)
